@@ -173,6 +173,7 @@ class KPipe:
         # bytes of one message written into the middle of another one (two writers, one of
         # them inside a multi-chunk write): the byte stream no longer parses into messages
         self.corrupt = False
+        self.mid_read = 0      # readers blocked between the chunks of a message
 
     def ref(self, which, d):
         if which == "r":
